@@ -69,6 +69,8 @@ def stop_sections(report=MAIN_REPORT):
     old_submission = report[TOOL_NAME]['substitutions'].pop()
     report.stop_group(report[TOOL_NAME]['section_group'])
     report.submission.replace_main(old_submission.code, old_submission.filename)
+    # The whole file is back, so its lines are no longer shifted
+    report.submission.clear_line_offsets()
     report[TOOL_NAME]['section_group'] = None
 
 def stop_any_sections(report=MAIN_REPORT):
@@ -109,6 +111,8 @@ def next_section(name="", report=MAIN_REPORT):
         report[TOOL_NAME]['success'] = None
         report.start_group(report[TOOL_NAME]['section_group'])
     else:
+        # The whole file stays in place, so its lines are not shifted
+        report.submission.clear_line_offsets()
         not_enough_sections(section_number, found)
     report.execute_hooks(TOOL_NAME, 'next_section.after')
 
